@@ -91,6 +91,35 @@ func Reset() {
 
 func Mkdir(path string) { mu.Lock(); dirs[strings.TrimSuffix(path, "/")] = true; mu.Unlock() }
 
+// ---- what the environment does to the virtual file system behind the program's back ----
+
+// Unlink removes a name; descriptors that are open on the file keep writing to
+// the now nameless file, as on a real file system.
+func Unlink(path string) { mu.Lock(); delete(files, path); mu.Unlock() }
+
+// Rmdir removes a directory name and every file name below it.
+func Rmdir(path string) {
+	mu.Lock()
+	path = strings.TrimSuffix(path, "/")
+	delete(dirs, path)
+	for n := range files {
+		if strings.HasPrefix(n, path+"/") {
+			delete(files, n)
+		}
+	}
+	mu.Unlock()
+}
+
+// RenameFile moves a name (log rotation); open descriptors follow the file.
+func RenameFile(from, to string) {
+	mu.Lock()
+	if f := files[from]; f != nil {
+		files[to] = f
+		delete(files, from)
+	}
+	mu.Unlock()
+}
+
 // Snapshot returns the bytes of a virtual file (nil if absent).
 func Snapshot(path string) []byte {
 	mu.Lock()
